@@ -6,7 +6,10 @@ TITLE = "Reference counts stay balanced on every path, including errors"
 EXTRACTS = ["Refs"]
 RULE = ("generated function bodies over fault-injecting operand objects (calls, attribute/subscript get/set, "
         "arithmetic, tuple/list/dict/set displays, unpacking, comprehensions, conditional/boolean expressions, "
-        "if/for/while with break/continue, try/except/finally, with); each program is run fault-free and once "
+        "if/for/while with break/continue, try/except/finally, with: 1-2 managers, name/tuple/attribute targets, "
+        "every exit kind, nested / in loops / under try; the runtime's __exit__, __contains__, comparisons, "
+        "__enter__, __iter__/__next__ return fault-injecting objects so that truth tests, conversions and "
+        "unpacking of RETURNED objects are fault points too); each program is run fault-free and once "
         "per k with the k-th dunder/iterator/conversion call raising, in three builds (CPython exec, compiled, "
         "compiled with CYTHON_REFNANNY=1 against a refnanny rebuilt from refnanny.pyx); a case = (program, k); "
         "distinct by (program text, k); non-trivial = at least one owned temporary or local is live at the "
@@ -21,7 +24,12 @@ EXPLANATION = ("theorems: for every statement/expression tree of the modelled fr
                "equivalent to counting. partial: the theorem is about the model of the discipline (gen mirrors "
                "ExprNodes/Nodes emission for the fragment); try/except/finally, with, unpacking, comprehensions, "
                "augmented assignment, method calls, keyword/star calls and all C utility code are only tested "
-               "by the three-way fault-injection run.")
+               "by the three-way fault-injection run. The __exit__ call of 'with' (WithExitCallNode: unmanaged "
+               "result temp, truth test of the result) has its own model exit_call: balanced on every outcome for "
+               "every oracle (C35_with_exit_call_balanced); the order 'error test before DECREF(result)' is refuted "
+               "by a witness at call and statement level; the modelled order is compared with the emitted C at "
+               "every __exit__ call site. The with statement as a whole (with_stat) is executable but not in the "
+               "gen_stmt induction.")
 LEVEL_TEXT = ("partial: machine-checked balance/no-use-after-release theorem for all trees and all fault oracles of "
               "the modelled temp/ownership discipline, tied to the real compiler by comparing the model's "
               "acquire/release event sequence with the refnanny log for every (program, k) of the fragment and the "
@@ -31,7 +39,9 @@ LEVEL_TEXT = ("partial: machine-checked balance/no-use-after-release theorem for
 TRUSTED = ["fault-injection runtime c35rt.py (operand class T whose every dunder ticks a global call counter)",
            "CPython 3.12 executing the same source = property oracle for result/exception/dunder-call order",
            "__Pyx_PyTuple_SET_ITEM/__Pyx_PyList_SET_ITEM modelled infallible (macro form in the default CPython build)",
-           "gcc as a conforming C compiler; PYTHONMALLOC=debug to surface use-after-free"]
+           "gcc as a conforming C compiler; PYTHONMALLOC=debug to surface use-after-free",
+           "with_stat: __Pyx_GetException modelled infallible; exit_var kept in a swept slot (the emitted code releases "
+           "it itself on every path); text scan of the generated C for the __exit__ call sites (exit_call_sites)"]
 ASSUMPTIONS = ["CPython 3.12, default (non limited-API, GIL) build of the generated module",
                "allocation failures (PyTuple_New/PyList_New -> MemoryError) are covered by the theorem's second "
                "oracle but never injected by the harness"]
@@ -57,6 +67,8 @@ def tick(name):
 def nm(op, *parts):
     return "%s%06x" % (op[:2], zlib.crc32(("%s|%s" % (op, "|".join(parts))).encode()) & 0xffffff)
 def N(x):
+    if isinstance(x, bool):
+        return "int"        # a C truth value used as an index reaches __getitem__ as int: a type matter, not C35
     return x.n if isinstance(x, (T, It, CM)) else type(x).__name__
 class T(object):
     __slots__ = ("n", "bc", "__weakref__")
@@ -110,8 +122,7 @@ class T(object):
     def __call__(s, *a, **k):
         return s._b("call", *(list(a) + [x for kv in sorted(k.items()) for x in kv]))
     def __contains__(s, o):
-        tick("contains")
-        return (zlib.crc32(s.n.encode()) & 1) == 1
+        return s._b("contains", o)          # the slot wrapper truth-tests the returned T: one more fault point
     def __bool__(s):
         tick("bool")
         c = s.bc
@@ -135,12 +146,13 @@ class T(object):
         return "T(" + s.n + ")"
     def __format__(s, spec):
         tick("format")
+        if zlib.crc32(s.n.encode()) % 5 == 0:
+            return s                        # non-str result: TypeError raised by the caller of __format__
         return "<" + s.n + ":" + spec + ">"
     def __enter__(s):
         return s._b("enter")
     def __exit__(s, t, v, tb):
-        tick("exit")
-        return (zlib.crc32(s.n.encode()) >> 7) % 4 == 0
+        return s._b("exit")                 # a T: its truth test (only made when the body raised) is a fault point
 class It(object):
     __slots__ = ("n", "k", "lim")
     def __init__(s, n, lim):
@@ -376,7 +388,7 @@ class Gen:
         if not self.core:
             kinds += ["aug", "unpack", "del", "raise"]
             if d > 0:
-                kinds += ["try", "try", "fin", "with", "while", "tryelse"]
+                kinds += ["try", "try", "fin", "with", "withn", "while", "tryelse"]
         k = r.choice(kinds)
         ed = r.randrange(1, 4)
         if k == "assign":
@@ -465,6 +477,27 @@ class Gen:
             cm = self.callee(ed - 1, bound)
             body, _ = self.block(d - 1, bound | ({v} if v is not None else set()), inloop)
             return ("with", cm, v, body), bound
+        if k == "withn":
+            # 1-2 managers; target: none / name / tuple of names / attribute
+            items, inner = [], set(bound)
+            for _ in range(r.randrange(1, 3)):
+                cm = self.callee(ed - 1, inner)
+                w = r.choice(["none", "name", "name", "tuple", "attr"])
+                if w == "none":
+                    tg = None
+                elif w == "name":
+                    x = self.newloc(); tg = ("name", x)
+                elif w == "tuple":
+                    xs = [self.newloc() for _ in range(r.randrange(1, 3))]; tg = ("tuple", xs)
+                else:
+                    tg = ("attr", self.leaf(inner), r.choice(ATTRS))
+                items.append((cm, tg))
+                if tg and tg[0] == "name":
+                    inner = inner | {tg[1]}
+                elif tg and tg[0] == "tuple":
+                    inner = inner | set(tg[1])
+            body, _ = self.block(d - 1, inner, inloop)
+            return ("withn", items, body), bound
         raise ValueError(k)
 
 
@@ -481,7 +514,7 @@ def terminates(s):
         return (blk(s[1]) or blk(s[5] or [])) and blk(s[4])
     if t == "fin":
         return blk(s[1]) or blk(s[2])
-    if t == "with":
+    if t in ("with", "withn"):
         return False
     if t in ("for", "while"):
         return False
@@ -642,8 +675,21 @@ def S(b, ind, out):
         elif t == "with":
             out.append(ind + "with %s%s:" % (E(s[1]), (" as v%d" % s[2]) if s[2] is not None else ""))
             S(s[3], ind + "    ", out)
+        elif t == "withn":
+            out.append(ind + "with %s:" % ", ".join(E(cm) + WT(tg) for cm, tg in s[1]))
+            S(s[2], ind + "    ", out)
         else:
             raise ValueError(s)
+
+
+def WT(tg):
+    if tg is None:
+        return ""
+    if tg[0] == "name":
+        return " as v%d" % tg[1]
+    if tg[0] == "tuple":
+        return " as (%s,)" % ", ".join("v%d" % x for x in tg[1])
+    return " as %s.%s" % (P(tg[1]), tg[2])
 
 
 def func_source(name, body):
@@ -952,6 +998,44 @@ DIRECTED = [
 ]
 
 
+
+
+def with_shapes():
+    """always run: every exit of a with block (fall through, return, break, continue, raise, fault) x target kinds x
+    manager counts x nesting in loops / try-finally / try-except.  With the runtime's __exit__ returning a T, the
+    truth test of its result (made only on the exception exit) is a fault point of its own: its failure, the
+    swallow and the re-raise outcome are all reached (the decisions of T.__bool__ vary with the object name)."""
+    A3 = ("arg", 3)
+    attr = lambda e, n: ("op", "." + n, [e])
+    call = lambda f, *a: ("call", f, list(a))
+    use = lambda e: ("expr", attr(e, "foo"))
+    W = lambda items, body: ("withn", items, body)
+    V = lambda i: ("loc", i)
+    sh = [
+        [W([(A0, None)], [use(A1)]), ("ret", A2)],
+        [W([(A0, ("name", 0))], [use(V(0))])],
+        [W([(attr(A0, "bar"), ("name", 0))], [("ret", ("op", "+", [V(0), A1]))])],
+        [W([(call(A0), ("tuple", [0, 1]))], [("expr", ("op", "+", [V(0), V(1)]))])],
+        [W([(A0, ("tuple", [0]))], [use(V(0))])],
+        [W([(A0, ("attr", A1, "foo"))], [use(A2)])],
+        [W([(A0, None), (A1, ("name", 0))], [use(V(0))]), ("ret", A2)],
+        [W([(A0, ("name", 0)), (V(0), ("name", 1))], [("raise", call(A2))]), ("ret", A3)],
+        [W([(A0, None)], [W([(A1, ("name", 0))], [use(A2)]), use(A3)]), ("ret", A3)],
+        [("for", 0, A2, [W([(A0, None)], [("if", V(0), [("break",)], []), ("continue",)])], None), ("ret", A1)],
+        [("for", 0, A2, [W([(A0, ("name", 1))], [use(V(1))]), ("continue",)], None)],
+        [("fin", [W([(A0, None)], [use(A1)])], [use(A2)])],
+        [("try", [W([(A0, None)], [("raise", call(A1))])], "Inject", None, [use(A2)], None), ("ret", A3)],
+        [W([(A0, None)], [("raise", call(A1))]), ("ret", A2)],
+        [W([(A0, None)], [("fin", [use(A1)], [use(A2)])])],
+        [("while", A0, [W([(A1, None)], [use(A2), ("break",)])])],
+        [("assign", 0, A1), W([(A0, ("name", 0))], [("expr", V(0))]), ("ret", V(0))],
+        [W([(A0, ("name", 0))], [("for", 1, V(0), [("if", V(1), [("ret", V(1))], [])], None), use(A2)])],
+        [W([(A0, None)], [("expr", ("in", False, A1, A2))]), ("expr", ("fstr", [A3], ":>4"))],
+        [W([(call(A0, A1), None)], [("unpack", [0, 1], None, A2)]), ("ret", A3)],
+    ]
+    return [("s%03d" % i, b) for i, b in enumerate(sh)]
+
+
 def chain_with_fallible_tail(x):
     """a cascaded comparison a < b < c whose LAST operand needs evaluation code that can raise"""
     if isinstance(x, (tuple, list)):
@@ -987,6 +1071,7 @@ def run(ctx):
         body = fix_dels(body, captured_locals(body))
         progs.append(("w%03d" % i, body, False))
     progs += [(n, b, False) for n, b in DIRECTED]
+    progs += [(n, b, False) for n, b in with_shapes()]
     progs = prefilter(ctx, progs)
     chunks = [progs[i:i + 120] for i in range(0, len(progs), 120)]
     for ci, chunk in enumerate(chunks):
@@ -1022,6 +1107,7 @@ def run_chunk(ctx, name, chunk, maxk, with_ledger=False):
         return
     funcs = [fn for fn, _, _ in chunk]
     ranges = c_ranges(open(c_file).read(), name, funcs)
+    exit_order_tie(ctx, name, open(c_file).read())
     units, crashes = {}, []
     for mode in ("py", "cy", "nanny"):
         u, c = run_driver(wd, name, funcs, ranges, [mode], maxk)
@@ -1109,6 +1195,59 @@ def run_chunk(ctx, name, chunk, maxk, with_ledger=False):
             ctx.traces_validated += 1
             if mod != impl:
                 ctx.corr_break("refnanny_event_sequence", inp, impl, mod)
+
+
+def exit_call_sites(c_text):
+    """emission order of every WithExitCallNode site in the generated C: [(line, test, has_args_temp, op codes)];
+    op codes as in M_Refs.exit_order (0 call, 1 DECREF exit_var, 2 DECREF args, 3 NULL test, 4 GOTREF result,
+    5 IsTrue, 6 DECREF result, 7 error test of the truth value)"""
+    lines = c_text.split("\n")
+    exit_vars = set(re.findall(r"(__pyx_t_\d+) = __Pyx_PyObject_LookupSpecial\([^;]*__pyx_n_u_exit\)", c_text))
+    out = []
+    for i, l in enumerate(lines):
+        m = re.match(r"\s*(__pyx_t_\d+) = __Pyx_PyObject_Call\((__pyx_t_\d+), ([^,]+), NULL\);\s*$", l)
+        if not m or m.group(2) not in exit_vars:
+            continue
+        resv, ex, args = m.groups()
+        ops, tv = [0], None
+        for l2 in lines[i + 1:i + 14]:
+            l2 = l2.strip()
+            if l2.startswith("__Pyx_DECREF(%s);" % ex):
+                ops.append(1)
+            elif l2.startswith("__Pyx_DECREF(%s);" % args):
+                ops.append(2)
+            elif l2.startswith("if (unlikely(!%s))" % resv):
+                ops.append(3)
+            elif l2.startswith("__Pyx_GOTREF(%s)" % resv):
+                ops.append(4)
+            elif "= __Pyx_PyObject_IsTrue(%s)" % resv in l2:
+                ops.append(5)
+                tv = l2.split(" = ")[0]
+            elif l2.startswith("__Pyx_DECREF(%s);" % resv):
+                ops.append(6)
+            elif tv and re.match(r"if \((unlikely\()?\(?%s < \(?0\)?" % re.escape(tv), l2):
+                ops.append(7)
+            elif l2.startswith("}") or l2.startswith("goto ") or l2.startswith("__pyx_t_") and "= (!" in l2:
+                break
+        out.append((i + 1, tv is not None, args.startswith("__pyx_t_"), ops))
+    return out
+
+
+def exit_order_tie(ctx, name, c_text):
+    """model (M_Refs.exit_order, the order exit_call implements and C35_with_exit_call_balanced is about) vs the
+    statement order the compiler under test emits at every __exit__ call site of the module"""
+    sites = exit_call_sites(c_text)
+    if not sites:
+        return
+    mod = {}
+    for t in (0, 1):
+        mod[t] = [int(x) for x in ctx.model("refs").batch(["exitorder 0 %d" % t])[0].split(",")]
+    for line, test, has_args, ops in sites:
+        want = [o for o in mod[1 if test else 0] if has_args or o != 2]
+        ctx.case("exit_site:" + ("except" if test else "finally"), {"module": name, "c_line": line}, sig=("exit", name, line))
+        ctx.traces_validated += 1
+        if ops != want:
+            ctx.corr_break("with_exit_emission_order", {"module": name, "c_line": line, "test": test}, ops, want)
 
 
 # ------------------------------------------------------------------------------------------------
